@@ -1,3 +1,4 @@
+#![allow(dead_code, unused_variables, unused_imports)]
 //! `ohv` — worker binary of the runtime-monitoring framework for opening-hours-rs.
 //!
 //!   ohv <Cxx> --seed S --worker W --of N --tier quick|thorough --out FILE [--known a,b] [--scale F] [--extra k=v]
@@ -5,9 +6,14 @@
 //!
 //! The orchestration (build, sharding, merging, evidence, known findings) is done by /verif/check.
 
+mod gen;
+mod known;
+mod model;
 mod monitors;
 mod out;
+mod render;
 mod rng;
+mod shrink;
 
 use out::{Args, Report};
 
@@ -37,11 +43,20 @@ fn parse_args() -> Args {
 }
 
 fn main() {
+    out::install_quiet_panic_hook();
+    if std::env::args().nth(1).as_deref() == Some("parse") {
+        // debugging aid: one expression per stdin line -> parsed AST, printed form, normal form
+        for line in std::io::stdin().lines() {
+            let line = line.unwrap();
+            match out::guarded(|| opening_hours_syntax::parse(&line)) {
+                Ok(Ok(e)) => println!("{line:?}\n  ast: {e:?}\n  display: {:?}\n  normal: {:?}", e.to_string(), e.clone().normalize().to_string()),
+                Ok(Err(e)) => println!("{line:?}\n  ERR {}", e.to_string().replace('\n', " | ")),
+                Err(p) => println!("{line:?}\n  PANIC {p}"),
+            }
+        }
+        return;
+    }
     let args = parse_args();
-    #[cfg(not(miri))]
-    out::install_quiet_panic_hook();
-    #[cfg(miri)]
-    out::install_quiet_panic_hook();
     let mut rep = Report::new(&args);
     let t0 = std::time::Instant::now();
 
@@ -50,6 +65,8 @@ fn main() {
         let v: serde_json::Value = serde_json::from_str(&text).expect("replay file is not JSON");
         let case = if v.get("case").is_some() { v["case"].clone() } else { v };
         match args.monitor.as_str() {
+            "C01" => monitors::c01::replay(&args, &case, &mut rep),
+            "C05" => monitors::c05::replay(&case, &mut rep),
             "C10" => monitors::c10::replay(&case, &mut rep),
             "C14" => monitors::c14::replay(&case, &mut rep),
             "C15" => monitors::c15::replay(&case, &mut rep),
@@ -59,6 +76,8 @@ fn main() {
         }
     } else {
         match args.monitor.as_str() {
+            "C01" => monitors::c01::run(&args, &mut rep),
+            "C05" => monitors::c05::run(&args, &mut rep),
             "C10" => monitors::c10::run(&args, &mut rep),
             "C14" => monitors::c14::run(&args, &mut rep),
             "C15" => monitors::c15::run(&args, &mut rep),
